@@ -45,6 +45,7 @@ def run(ctx):
     table(ctx, facts)
     decoders(ctx, facts)
     C08.check_range(ctx, facts)   # prime-field decoders construct only under v < PRIME (interval analysis)
+    C08.check_pad_constructors(ctx, facts)   # every other bytes -> value path of a padded type also keeps the padding zero
     event_type(ctx, facts)
     codecs(ctx, facts)
     ctx.assume("round-trip equality and bit-matrix transposes are numerical and not decided; curve25519-dalek's decompress / scalar parsing are trusted")
